@@ -44,6 +44,20 @@ def gen_cases(ctx, names, n_cfg, profiles=None, scale=1):
     return out
 
 
+def named_schemes(res0, names=None):
+    """the schemes a broken correspondence names (its disagreements start with the scheme name): the failing-input search
+    looks at these first, with more configurations and the big profiles"""
+    names = names or se.NAMES
+    return [n for n in names if any(str(d.get("case", "")).startswith(n + " ") for d in res0.disagreements)]
+
+
+def targeted_cases(ctx, res0, n_quick=24, n_thorough=60, scale=1, names=None):
+    named = named_schemes(res0, names)
+    if not named:
+        return []
+    return gen_cases(ctx, named, ctx.pick(n_quick, n_thorough), profiles=se.PROFILES + se.BIG_PROFILES, scale=scale)
+
+
 def show_case(c, w=None):
     d = {"scheme": c["name"], "config": {k: v for k, v in c["cfg"].items() if k != "scheme"},
          "database": {hx(k): [hx(i) for i in v] for k, v in c["db"].items()}}
